@@ -30,7 +30,7 @@ ContC == {[k |-> "cut", l |-> a, r |-> b, contained |-> TRUE] : a \in {Par(V2(-1
          \cup {[k |-> "cut", l |-> Cir(V2(0, 0), A1(8, "k")), r |-> Cir(<<A0(1), A0(0)>>, A0(6)), contained |-> TRUE]}
 Transf == {Tr(a, t) : a \in PrimsG \cup {Bd(p) : p \in PrimsG}, t \in TransVecs}
           \cup {Ro(a, m, p) : a \in PrimsG \cup {Bd(q) : q \in PrimsG}, m \in {"r90", "p345", "p51213"}, p \in RotPts}
-TransfQ == RotQ1 \cup Rot3D1 \cup {Roq(Bd(p), an, V2(2, -4)) : p \in {Par(V2(-8, -6), V2(4, -2), V2(-4, 6)), Cir(<<A1(-4, "t"), A0(0)>>, A1(2, "k")), Poly(<<RingL>>)}, an \in {"t", "k"}}
+TransfQ == RotQ1 \cup RotQ2 \cup Rot3D1 \cup {Roq(Bd(p), an, V2(2, -4)) : p \in {Par(V2(-8, -6), V2(4, -2), V2(-4, 6)), Cir(<<A1(-4, "t"), A0(0)>>, A1(2, "k")), Poly(<<RingL>>)}, an \in {"t", "k"}}
            \cup {Ro3(Bd(p), m, V3(2, -4, 2)) : p \in {MeshBox, Sph}, m \in {"z345", "zx"}}
 Prods == {Pr(a, i) : a \in PrimsG, i \in Ints} \cup {Pr(i, m) : i \in Ints, m \in {MeshTet}} \cup {Pr(i, [k |-> "interval", v |-> "z", lo |-> A0(0), hi |-> A0(6)]) : i \in Ints}
 AttrExprs == IF Mode = "vol" THEN Basics \cup Bds \cup Transf \cup TransfQ \cup Prods \cup {u \in DisjU : DisjointOn(u.l, u.r)} \cup {c \in ContC : ContainedOn(c.r, c.l)}
